@@ -86,6 +86,31 @@ Theorem ascii_value_agrees : forall t w, t = Int \/ t = Float \/ t = Double ->
 Proof. exact tok_value_agrees. Qed.
 Print Assumptions ascii_value_agrees.
 
+(* ---- recognised property groups become the corresponding attributes ---- *)
+
+(* Under distinct property names, wherever the members stand in the header and whatever stands between them: the
+   vector reader of a group (x y z / nx ny nz / red green blue alpha / s t / ...) is built EXACTLY when every member
+   is declared and all have one type (the type of the first declared member); its offsets are the members' layout
+   offsets ([offsets], the function of [layout_reads_record]), its scalar type that common type.  Both for byte
+   offsets (binary) and columns (ascii). *)
+Theorem groups_become_attributes : forall bin attr ms (ps : vprops),
+  NoDup (names ps) ->
+  build_vec bin attr ms (scalars ps) = Ok (vec_reader bin attr ms ps).
+Proof. exact groups_become_attributes_proof. Qed.
+Print Assumptions groups_become_attributes.
+
+(* colour groups: the four-member reader when red, green, blue and alpha share one type, otherwise the RGB reader
+   alone - independent of where alpha is declared (the behaviour after fixes 04b414a and 473a5bb) *)
+Theorem colour_group_fallback : forall bin g r gn b a (ps : vprops),
+  g_members g = [r; gn; b; a] -> g_ignorable_w g = true -> NoDup (names ps) ->
+  build_group bin g (scalars ps) =
+  Ok (match vec_reader bin (g_attr g) [r; gn; b; a] ps with
+      | Some x => Some x
+      | None => vec_reader bin (g_attr g) [r; gn; b] ps
+      end).
+Proof. exact colour_fallback_proof. Qed.
+Print Assumptions colour_group_fallback.
+
 (* ---- list count and index types ---- *)
 
 (* uchar, int and uint counts, both byte orders: the count is read back as written and exactly its bytes are consumed *)
